@@ -93,6 +93,13 @@ def cases(tier, seed):
         out.append(dict(fault="exists-and-fault", pos=pos, source="frame"))
     out.append(dict(fault="none", source="frame"))
     out.append(dict(fault="none", source="hdf"))
+    # a frame-like mapping (the documented input of from_dataframe) that does not enforce equal column lengths: one column
+    # holds fewer values than the others (a single value would broadcast silently)
+    for col, keep, chunk in itertools.product(("w", "z", "dec"), (1, 2, 5), (2, 6)):
+        if tier == "quick" and col == "z" and keep != 1:
+            continue
+        out.append(dict(fault="ragged", source="mapping", col=col, keep=keep, chunk=chunk))
+    out.append(dict(fault="none", source="mapping"))
     # a Parquet source (row groups of 2 records) whose k-th row group cannot be read: an error of the Arrow library at
     # the file seam (chunk lengths 2, 3, 4: the failing group starts a chunk or completes one)
     for chunk in (2, 3, 4):
@@ -128,6 +135,31 @@ def tree_digest(path):
         for f in sorted(files):
             h.update(("F" + f).encode() + open(os.path.join(root, f), "rb").read())
     return h.hexdigest()
+
+
+class ColumnFrame:
+    """Minimal frame-like input of Catalog.from_dataframe: len(), [slice] -> frame, [name] -> column with to_numpy()."""
+
+    class Column:
+        def __init__(self, values):
+            self.values = np.asarray(values)
+
+        def to_numpy(self):
+            return self.values
+
+        def __array__(self, *a, **k):
+            return self.values
+
+    def __init__(self, columns):
+        self.columns = {name: np.asarray(col) for name, col in columns.items()}
+
+    def __len__(self):
+        return len(self.columns["ra"])
+
+    def __getitem__(self, item):
+        if isinstance(item, slice):
+            return ColumnFrame({name: col[item] for name, col in self.columns.items()})
+        return ColumnFrame.Column(self.columns[item])
 
 
 class Scenario:
@@ -168,7 +200,12 @@ class Scenario:
         if f in ("overwrite-then-fault", "exists-and-fault"):
             cols["ra"] = cols["ra"].copy()
             cols["ra"][POS[case["pos"]]] = np.nan
-        self.df = pd.DataFrame(cols) if f != "length" else None
+        self.df = pd.DataFrame(cols) if f not in ("length", "ragged") else None
+        if case["source"] == "mapping":
+            ragged = dict(cols)
+            if f == "ragged":
+                ragged[case["col"]] = ragged[case["col"]][: case["keep"]]
+            self.df = ColumnFrame(ragged)
         self.file = None
         if case["source"] == "hdf":
             import h5py
